@@ -367,6 +367,13 @@ let () =
               (tn, (z_of_int rid, cells))) in
           let nseq = next_int () in
           let seq0 = times nseq (fun () -> let tn = next_str () in let v = next_int () in (tn, z_of_int v)) in
+          let ndeps = next_int () in
+          let deps = times ndeps (fun () ->
+              let dn = next_str () in
+              let on = next_opt () in
+              let nr = next_int () in
+              let reads = times nr (fun () -> next_str ()) in
+              { dep_name = dn; dep_on = on; dep_reads = reads }) in
           let (_, b) = parse_xschema () in
           let bx = Stdlib.List.map fst b in
           (match exec_all d0 setup with
@@ -383,10 +390,18 @@ let () =
                 match planChanges ia bx cs with
                 | None -> Printf.printf "%s AP plan-err\n" id
                 | Some p ->
-                  let (((d2, s2), kk), e) = exec_seq_count (d1, seq0) (plan_stmts p) O in
-                  (match e with
-                   | None -> Printf.printf "%s AP ok\n" id
-                   | Some _ -> Printf.printf "%s AP err@%d\n" id (int_of_nat kk));
+                  (* views and triggers decide where the run stops; sqlite_sequence is that of the statements that ran *)
+                  let (((dv, deps2), kv), ev) = exec_v_count (d1, deps) (plan_stmts p) O in
+                  let rec take n l = match n, l with O, _ -> [] | _, [] -> [] | S n', x :: r -> x :: take n' r in
+                  let stmts = if ndeps = 0 then plan_stmts p else take kv (plan_stmts p) in
+                  let (((d2, s2), kk), e) = exec_seq_count (d1, seq0) stmts O in
+                  let e = if ndeps = 0 then (match e with None -> false | Some _ -> true) else (match ev with None -> false | Some _ -> true) in
+                  let kk = if ndeps = 0 then kk else kv in
+                  let d2 = if ndeps = 0 then d2 else dv in
+                  (if not e then Printf.printf "%s AP ok\n" id
+                   else Printf.printf "%s AP err@%d\n" id (int_of_nat kk));
+                  if ndeps > 0 then
+                    Printf.printf "%s DP %s\n" id (String.concat "," (Stdlib.List.sort compare (Stdlib.List.map (fun d -> raw d.dep_name) deps2)));
                   Printf.printf "%s RR %s\n" id (show_rows_rid d2);
                   let sq = Stdlib.List.sort compare (Stdlib.List.map (fun (tn, v) -> raw tn ^ "=" ^ string_of_int (int_of_z v)) s2) in
                   Printf.printf "%s SQ %s\n" id (String.concat "," sq)))
